@@ -1,0 +1,301 @@
+//go:build verif
+
+// Machine-checked contracts for property C19: "Idle sweeps and health checks
+// close exactly the connections they should" (idle_sweep.go, health.go and the
+// activity stamps / pending-call test in connection.go). Read by govc; this
+// file contains only comments and adds no declarations to the package.
+//
+// MODEL NOTES (what is assumed rather than proved; see also the report):
+//  * go.uber.org/atomic operations are not modelled by the engine (an atomic
+//    Load/Store on a field of a tchannel object havocs the whole heap). The
+//    three one-line wrappers around an atomic Load -- getLastActivityReadTime,
+//    getLastActivityWriteTime, Relayer.countPending -- therefore carry
+//    `trusted` contracts that tie the value read to a ghost field
+//    (actRead / actWrite / relayPending = "the content of the atomic").
+//  * Connection.close and Connection.ping are `trusted`: their bodies reach
+//    atomics, callbacks and channels. Their contracts only do ghost
+//    accounting: closeReq(c) counts invocations of c.close(), pingFails(c) is
+//    the number of consecutive failed pings, pingStopped(c) says that the
+//    last ping failed because the health check was cancelled / the connection
+//    left the active state.
+//  * "closed by the sweep / by the health check" therefore means: c.close()
+//    was invoked on the connection (closeReq(c) changed).
+
+package tchannel
+
+// ===========================================================================
+// connection.go -- activity stamps: only call and error frames count
+// ===========================================================================
+
+//@ ghostfield actRead
+//@ ghostfield actWrite
+//@ ghostfield relayPending
+//@ ghostfield closeReq
+
+// The frame types that count as activity, from the property statement: call
+// req / call req continue / call res / call res continue / error -- and in
+// particular neither ping req (0xd0) nor ping res (0xd1).
+//@ pred IsCallType(t messageType) := t == messageTypeCallReq || t == messageTypeCallReqContinue || t == messageTypeCallRes || t == messageTypeCallResContinue || t == messageTypeError
+
+//@ func isMessageTypeCall(frame *Frame) (ok bool)
+//@   ensures ok <==> IsCallType(frame.Header.messageType)
+//@   property C19
+
+// For a frame that is not a call/error frame (e.g. a ping) the stamp is left
+// alone. (The atomic Store is modelled as "may change anything", so this is
+// provable only because the Store is guarded by isMessageTypeCall. The
+// converse -- a call frame sets the stamp to now -- cannot be stated: Store has
+// no modelled effect.)
+//@ func (c *Connection) updateLastActivityRead(frame *Frame)
+//@   requires c.timeNow != nil
+//@   modifies all
+//@   ensures !IsCallType(old(frame.Header.messageType)) ==> actRead(c) == old(actRead(c))
+//@   property C19
+
+//@ func (c *Connection) updateLastActivityWrite(frame *Frame)
+//@   requires c.timeNow != nil
+//@   modifies all
+//@   ensures !IsCallType(old(frame.Header.messageType)) ==> actWrite(c) == old(actWrite(c))
+//@   property C19
+
+//@ func (c *Connection) getLastActivityReadTime() (t time.Time)
+//@   trusted
+//@   modifies nothing
+//@   ensures nanos(t) == actRead(c)
+//@   property C19
+
+//@ func (c *Connection) getLastActivityWriteTime() (t time.Time)
+//@   trusted
+//@   modifies nothing
+//@   ensures nanos(t) == actWrite(c)
+//@   property C19
+
+// ===========================================================================
+// connection.go / relay.go -- "active" and "has pending calls or relayed calls"
+// ===========================================================================
+
+//@ func (c *Connection) IsActive() (ok bool)
+//@   ensures ok <==> c.state == connectionActive
+//@   property C19
+
+//@ func (r *Relayer) countPending() (n uint32)
+//@   trusted
+//@   modifies nothing
+//@   ensures n == relayPending(r)
+//@   property C19
+
+//@ func (r *Relayer) canClose() (ok bool)
+//@   nilable r
+//@   ensures ok <==> (r == nil || relayPending(r) == 0)
+//@   property C19
+
+// Pending: an inbound exchange, an outbound exchange, or a relayed call in flight.
+//@ pred Pending(c *Connection) := len(c.inbound.exchanges) > 0 || len(c.outbound.exchanges) > 0 || (c.relay != nil && relayPending(c.relay) != 0)
+
+//@ func (c *Connection) hasPendingCalls() (ok bool)
+//@   requires c.inbound != nil && c.outbound != nil
+//@   ensures ok <==> Pending(c)
+//@   property C19
+
+//@ func (c *Connection) close(fields ...LogField) (err error)
+//@   trusted
+//@   modifies closeReq(c), c.state
+//@   ensures closeReq(c) == old(closeReq(c)) + 1
+//@   ensures old(c.state) == connectionActive ==> c.state != connectionActive
+//@   ensures old(c.state) != connectionActive ==> c.state == old(c.state)
+//@   property C19
+
+// ===========================================================================
+// idle_sweep.go -- one sweep
+// ===========================================================================
+
+// LastActivity: the later of the last call-frame read and write.
+// IdleFor: no call frame sent or received for at least maxIdle.
+// ShouldClose: the property's condition, on the values at the start of the
+// sweep (the sweep itself is the only writer in the sequential model).
+// SweepInv: a connection is either untouched, or close() was invoked on it
+// exactly once and it satisfied ShouldClose.
+//@ pred LastActivity(c *Connection) := ite(actRead(c) < actWrite(c), actWrite(c), actRead(c))
+//@ pred IdleFor(c *Connection, now int, maxIdle int) := now - LastActivity(c) >= maxIdle
+//@ pred SweepConn(c *Connection) := c != nil && c.inbound != nil && c.outbound != nil && c.log != nil
+//@ pred ClosedBySweep(c *Connection) := closeReq(c) != old(closeReq(c))
+//@ pred ShouldClose(c *Connection, now int, maxIdle int) := old(c.state) == connectionActive && !old(Pending(c)) && IdleFor(c, now, maxIdle)
+//@ pred SweepInv(c *Connection, now int, maxIdle int) := (!ClosedBySweep(c) && c.state == old(c.state)) ||
+//@        (closeReq(c) == old(closeReq(c)) + 1 && c.state != connectionActive && ShouldClose(c, now, maxIdle))
+
+// "closed only if": closes-only-idle-active-nonpending (for every connection of
+// the channel, t = the sweep's reading of the clock), closes-at-most-once.
+// "closed if": per iteration, every-idle-connection-is-queued (loop 0) and
+// every-queued-active-nonpending-connection-is-closed (loop 1); the engine has
+// no visited-set for map ranges, so this direction is stated per visited
+// connection and not as a postcondition over the whole map.
+// is.maxIdleTime > 0 is what validateIdleCheck guarantees whenever sweeps run.
+//@ func (is *idleSweep) checkIdleConnections()
+//@   requires is.ch != nil && is.ch.timeNow != nil && is.maxIdleTime > 0
+//@   requires forall k int :: has(is.ch.mutable.conns, k) ==> SweepConn(is.ch.mutable.conns[k])
+//@   modifies all
+//@   label closes-only-idle-active-nonpending
+//@   ensures exists t int :: (forall k int :: has(old(is.ch.mutable.conns), k) && ClosedBySweep(old(is.ch.mutable.conns[k])) ==>
+//@             ShouldClose(old(is.ch.mutable.conns[k]), t, old(is.maxIdleTime)))
+//@   label sweep-precondition-preserved
+//@   ensures is.ch == old(is.ch)
+//@   ensures is.ch.timeNow != nil
+//@   ensures old(is.ch.timeTicker) != nil ==> is.ch.timeTicker != nil
+//@   ensures is.maxIdleTime == old(is.maxIdleTime)
+//@   ensures is.idleCheckInterval == old(is.idleCheckInterval)
+//@   ensures is.stopCh == old(is.stopCh)
+//@   ensures is.ch.mutable.conns == old(is.ch.mutable.conns)
+//@   ensures forall k int :: has(is.ch.mutable.conns, k) ==> SweepConn(is.ch.mutable.conns[k])
+//@   label closes-at-most-once
+//@   ensures forall k int :: has(old(is.ch.mutable.conns), k) && ClosedBySweep(old(is.ch.mutable.conns[k])) ==>
+//@             closeReq(old(is.ch.mutable.conns[k])) == old(closeReq(is.ch.mutable.conns[k])) + 1
+//@   loop 0 invariant forall j int :: 0 <= j && j < len(idleConnections) ==> SweepConn(idleConnections[j]) && IdleFor(idleConnections[j], nanos(now), is.maxIdleTime)
+//@   label every-idle-connection-is-queued
+//@   loop 0 step IdleFor(conn, nanos(now), is.maxIdleTime) ==> len(idleConnections) > 0 && idleConnections[len(idleConnections)-1] == conn
+//@   loop 1 invariant forall j int :: 0 <= j && j < len(idleConnections) ==> SweepConn(idleConnections[j]) && IdleFor(idleConnections[j], nanos(now), is.maxIdleTime)
+//@   loop 1 invariant forall k int :: has(is.ch.mutable.conns, k) ==> SweepInv(is.ch.mutable.conns[k], nanos(now), is.maxIdleTime)
+//@   loop 1 invariant forall j int :: 0 <= j && j < len(idleConnections) ==> SweepInv(idleConnections[j], nanos(now), is.maxIdleTime)
+//@   loop 1 invariant is.maxIdleTime == old(is.maxIdleTime) && is.ch == old(is.ch) && is.ch.mutable.conns == old(is.ch.mutable.conns)
+//@   label every-queued-active-nonpending-connection-is-closed
+//@   loop 1 step !ClosedBySweep(conn) ==> conn.state != connectionActive || Pending(conn)
+//@   property C19
+
+// ===========================================================================
+// health.go -- active health checks
+// ===========================================================================
+
+//@ func (hco HealthCheckOptions) enabled() (ok bool)
+//@   ensures ok <==> hco.Interval > 0
+//@   property C19
+
+//@ func (hco HealthCheckOptions) withDefaults() (r HealthCheckOptions)
+//@   ensures r.Interval == hco.Interval
+//@   ensures hco.Timeout == 0 ==> r.Timeout == 1000000000
+//@   ensures hco.Timeout != 0 ==> r.Timeout == hco.Timeout
+//@   ensures hco.FailuresToClose == 0 ==> r.FailuresToClose == 5
+//@   ensures hco.FailuresToClose != 0 ==> r.FailuresToClose == hco.FailuresToClose
+//@   property C19
+
+// healthHistory: ring buffer of the last 256 results.
+//@ pred HistoryOK(hh *healthHistory) := hh != nil && len(hh.states) == 256 && 0 <= hh.insertAt && hh.insertAt < 256
+
+//@ func newHealthHistory() (hh *healthHistory)
+//@   ensures fresh(hh) && HistoryOK(hh) && hh.total == 0 && hh.insertAt == 0
+//@   property C19
+
+//@ func (hh *healthHistory) add(b bool)
+//@   requires HistoryOK(hh)
+//@   modifies hh.insertAt, hh.total, elems(hh.states)
+//@   ensures HistoryOK(hh) && hh.states == old(hh.states)
+//@   ensures hh.states[old(hh.insertAt)] == b
+//@   ensures hh.insertAt == (old(hh.insertAt) + 1) % 256
+//@   ensures old(hh.total) < 9223372036854775807 ==> hh.total == old(hh.total) + 1
+//@   ensures forall j int :: 0 <= j && j < 256 && j != old(hh.insertAt) ==> hh.states[j] == old(hh.states[j])
+//@   property C19
+
+// Ghost accounting of ping outcomes (assumed): a success resets the run of
+// consecutive failures, a failure extends it by one.
+//@ ghostfield pingFails
+//@ ghostfield pingStopped
+
+//@ pred HealthStopErr(err error) := err != nil && (GetSystemErrorCode(err) == ErrCodeCancelled || err == ErrInvalidConnectionState)
+
+//@ func (c *Connection) ping(ctx context.Context) (err error)
+//@   trusted
+//@   modifies pingFails(c), pingStopped(c)
+//@   ensures err == nil ==> pingFails(c) == 0
+//@   ensures err != nil ==> pingFails(c) == old(pingFails(c)) + 1
+//@   ensures pingStopped(c) == 1 <==> HealthStopErr(err)
+//@   property C19
+
+// T4: a user-supplied TimeTicker returns a ticker.
+//@ funcfield channelConnectionCommon.timeTicker(d time.Duration) (t *time.Ticker)
+//@   modifies nothing
+//@   ensures t != nil
+
+// The health loop. pingFails(c) == 0 at the start (no ping sent yet);
+// FailuresToClose >= 1 is what withDefaults yields for every non-negative
+// configuration (a negative value would close on the first failure).
+//  * close() is invoked exactly when the run of consecutive failures reaches
+//    FailuresToClose, not earlier, and once;
+//  * if it returns without closing, fewer than FailuresToClose consecutive
+//    failures were seen or the last ping reported cancellation / invalid state;
+//  * the loop counter IS the number of consecutive failures (so a success
+//    resets it to 0).
+//@ func (c *Connection) healthCheck(connID uint32)
+//@   requires c.timeTicker != nil && c.log != nil && c.healthCheckCtx != nil && HistoryOK(c.healthCheckHistory)
+//@   requires c.opts.HealthChecks.FailuresToClose >= 1
+//@   requires pingFails(c) == 0
+//@   modifies pingFails(c), pingStopped(c), closeReq(c), c.state, c.healthCheckHistory.insertAt, c.healthCheckHistory.total, elems(c.healthCheckHistory.states)
+//@   label closes-not-earlier-than-FailuresToClose
+//@   ensures closeReq(c) != old(closeReq(c)) ==> pingFails(c) == c.opts.HealthChecks.FailuresToClose && closeReq(c) == old(closeReq(c)) + 1
+//@   label closes-at-FailuresToClose
+//@   ensures closeReq(c) == old(closeReq(c)) ==> pingFails(c) < c.opts.HealthChecks.FailuresToClose || pingStopped(c) == 1
+//@   label stopped-health-check-does-not-close
+//@   ensures pingStopped(c) == 1 ==> closeReq(c) == old(closeReq(c))
+//@   label counter-is-consecutive-failures
+//@   loop 0 invariant consecutiveFailures == pingFails(c) && 0 <= consecutiveFailures && consecutiveFailures < opts.FailuresToClose
+//@   loop 0 invariant closeReq(c) == old(closeReq(c)) && HistoryOK(c.healthCheckHistory) && opts.FailuresToClose == c.opts.HealthChecks.FailuresToClose
+//@   property C19
+
+//@ func (hh *healthHistory) asBools() (r []bool)
+//@   requires HistoryOK(hh) && 0 <= hh.total && (hh.total < 256 ==> hh.insertAt == hh.total)
+//@   ensures hh.total < 256 ==> len(r) == hh.total
+//@   ensures hh.total >= 256 ==> len(r) == 256
+//@   ensures forall j int :: 0 <= j && j < len(r) && hh.total < 256 ==> r[j] == hh.states[j]
+//@   ensures forall j int :: 0 <= j && j < 256 - hh.insertAt && hh.total >= 256 ==> r[j] == hh.states[hh.insertAt + j]
+//@   ensures forall j int :: 0 <= j && j < hh.insertAt && hh.total >= 256 ==> r[256 - hh.insertAt + j] == hh.states[j]
+//@   property C19
+
+//@ func (c *Connection) stopHealthCheck()
+//@   requires c.log != nil && (c.healthCheckDone != nil ==> c.healthCheckCtx != nil && c.healthCheckQuit != nil)
+//@   property C19
+
+//@ func (c *Connection) callOnActive()
+//@   requires c.log != nil
+//@   modifies all
+//@   label health-check-set-up-when-enabled
+//@   ensures c.opts.HealthChecks.Interval > 0 ==> c.healthCheckDone != nil
+//@   property C19
+
+// ===========================================================================
+// idle_sweep.go / channel.go -- starting and stopping the sweep
+// ===========================================================================
+
+//@ func (o *ChannelOptions) validateIdleCheck() (err error)
+//@   ensures err != nil <==> (o.IdleCheckInterval > 0 && o.MaxIdleTime <= 0)
+//@   property C19
+
+//@ func (is *idleSweep) start()
+//@   requires is.ch != nil && is.ch.log != nil
+//@   modifies is.started, is.stopCh
+//@   ensures is.started <==> (old(is.started) || is.idleCheckInterval > 0)
+//@   property C19
+
+//@ func (is *idleSweep) Stop()
+//@   requires is.ch != nil && is.ch.log != nil
+//@   modifies is.started
+//@   ensures !is.started
+//@   property C19
+
+//@ func startIdleSweep(ch *Channel, opts *ChannelOptions) (is *idleSweep)
+//@   requires ch.log != nil
+//@   ensures fresh(is) && is.ch == ch && is.maxIdleTime == opts.MaxIdleTime && is.idleCheckInterval == opts.IdleCheckInterval
+//@   ensures is.started <==> opts.IdleCheckInterval > 0
+//@   property C19
+
+//@ func (is *idleSweep) pollerLoop()
+//@   requires is.ch != nil && is.ch.timeTicker != nil && is.ch.timeNow != nil && is.maxIdleTime > 0
+//@   requires forall k int :: has(is.ch.mutable.conns, k) ==> SweepConn(is.ch.mutable.conns[k])
+//@   modifies all
+//@   loop 0 invariant is.ch != nil && is.ch.timeTicker != nil && is.ch.timeNow != nil && is.maxIdleTime > 0
+//@   loop 0 invariant forall k int :: has(is.ch.mutable.conns, k) ==> SweepConn(is.ch.mutable.conns[k])
+//@   property C19
+
+// The connection's options carry the defaulted health-check settings: an
+// unset FailuresToClose becomes 5, a configured one is kept.
+//@ func (co ConnectionOptions) withDefaults() (r ConnectionOptions)
+//@   ensures r.HealthChecks.Interval == co.HealthChecks.Interval
+//@   ensures co.HealthChecks.FailuresToClose == 0 ==> r.HealthChecks.FailuresToClose == 5
+//@   ensures co.HealthChecks.FailuresToClose != 0 ==> r.HealthChecks.FailuresToClose == co.HealthChecks.FailuresToClose
+//@   property C19
